@@ -414,3 +414,19 @@ mod test {
         assert_eq!(28, shape.offset);
     }
 }
+
+#[cfg(feature = "verif-hooks")]
+pub(crate) mod verif_local {
+    use super::*;
+
+    /// `Indent::to_string_inner` (private) with an arbitrary `offset`.
+    pub(crate) fn indent_to_string_inner(i: Indent, config: &Config, offset: usize) -> String {
+        i.to_string_inner(config, offset).into_owned()
+    }
+
+    /// `Shape::exceeds_max_width_error` (private): the `configured_width` it records.
+    pub(crate) fn exceeds_max_width_error(s: Shape) -> usize {
+        s.exceeds_max_width_error(rustc_span::DUMMY_SP)
+            .configured_width
+    }
+}
